@@ -297,12 +297,21 @@ Definition exec_refines (c : cfg) (w : world) (o : op) (r : sres) : Prop :=
 (** the allocator can serve one more element of vector [vid] (or its capacity is fixed) *)
 Definition adm_vec (c : cfg) (w : world) (vid : nat) : Prop :=
   forall vv, get_vec vid w = Some vv -> can_take c vv 1.
+(** a growth request of [n] more elements can be served (or needs no allocation / is refused by the checks) *)
+Definition adm_reserve (c : cfg) (w : world) (vid : nat) (n : N) : Prop :=
+  forall vv, get_vec vid w = Some vv ->
+    vlen vv + n <= vcap vv \/ fixed_backend (vbk vv) \/ usize_max < vlen vv + n \/
+    (grow_ok c vv (vlen vv + n) /\ c_sz c * (vlen vv + n) <= alloc_limit).
+Definition adm_shrink (c : cfg) (w : world) (vid : nat) : Prop :=
+  forall vv, get_vec vid w = Some vv -> c_sz c * vcap vv <= alloc_limit.
 Definition admissible (c : cfg) (w : world) (o : op) : Prop :=
   match o with
   | OPush _ v _ | OInsert _ v _ _ => adm_vec c w v
   | OPop _ _ k | ORemove _ _ _ k | OSwapRemove _ _ _ k =>
       match k with KPush d | KIns d _ => adm_vec c w d | _ => True end
   | ONew _ bk => bk_wf bk
+  | OReserve v n | OReserveExact v n => adm_reserve c w v n
+  | OShrinkToFit v | OShrinkTo v _ => adm_shrink c w v
   | _ => True
   end.
 
@@ -797,6 +806,111 @@ Proof.
   - eexists _, _. split; [reflexivity|]. apply Hgen; [reflexivity|exact I].
 Qed.
 
+Lemma resizable_spec bk : resizable bk = true -> resizable_backend bk /\ forall c, acap c bk = None.
+Proof.
+  destruct bk; cbn [resizable]; intros H; try discriminate; split; try reflexivity.
+  - left. reflexivity.
+  - right. eexists. reflexivity.
+Qed.
+Lemma acap_none_resizable c bk : acap c bk = None -> resizable_backend bk.
+Proof. destruct bk; cbn [acap]; intros H; try discriminate; [left; reflexivity|right; eexists; reflexivity]. Qed.
+
+(** a vector-level computation that keeps the elements *)
+Lemma exec_keeps c w st vid av vv (m : M Vec.st unit) r :
+  WRep c w st -> get_a vid st = Some av -> get_vec vid w = Some vv -> VI c vv av -> ufuse (wuw w) = None ->
+  r = ok_res [] [] st (unext (wuw w)) ->
+  (exists v' u', m (vv, wuw w) = Ok tt (v', u') /\ Rep c v' (a_xs av) /\ vbk v' = vbk vv /\ same_user (wuw w) u' /\
+                 (fixed_backend (vbk vv) -> vcap v' = vcap vv)) ->
+  res_matches c w ((on_vec vid m;; ret (0, @nil N)) w) r.
+Proof.
+  intros HW Hg Hgv HV Hfuse -> (v' & u' & E & HR' & Hb & Hsu & Hc).
+  destruct (same_user_events _ _ Hsu) as (He & Hn & Hf).
+  unfold bind. rewrite (on_vec_ok vid _ w vv tt v' u' Hgv E). unfold ret.
+  cbn [res_matches ok_res s_out s_pk s_ret s_st s_evs s_nx].
+  split; [reflexivity|split; [reflexivity|split; [reflexivity|]]]. rewrite N.sub_diag.
+  constructor.
+  - apply (wrep_put_same c w st vid v' av); [exact HW|exact Hg|].
+    destruct HV as [HR Hbk Hwf Hcap]. constructor; auto; try congruence.
+    destruct (acap c (a_bk av)) as [cap|] eqn:Ea; [|exact I].
+    rewrite Hc; [exact Hcap|]. rewrite Hbk. eapply acap_fixed; eauto.
+  - rewrite wuw_put. lia.
+  - rewrite wuw_put. congruence.
+  - rewrite wuw_put. exact He.
+Qed.
+
+Lemma exec_panics_unchanged c w st vid av vv (m : M Vec.st unit) p r :
+  WRep c w st -> get_a vid st = Some av -> get_vec vid w = Some vv -> VI c vv av -> ufuse (wuw w) = None ->
+  r = panic_res p [] st (unext (wuw w)) ->
+  m (vv, wuw w) = Panic p (vv, wuw w) ->
+  res_matches c w ((on_vec vid m;; ret (0, @nil N)) w) r.
+Proof.
+  intros HW Hg Hgv HV Hfuse -> E.
+  unfold bind. rewrite (on_vec_panic vid _ w vv p vv (wuw w) Hgv E).
+  cbn [res_matches panic_res s_out s_pk s_ret s_st s_evs s_nx].
+  split; [reflexivity|split; [reflexivity|split; [reflexivity|]]]. rewrite N.sub_diag.
+  constructor.
+  - apply (wrep_put_same c w st vid vv av); assumption.
+  - rewrite wuw_put. lia.
+  - rewrite wuw_put. exact Hfuse.
+  - rewrite wuw_put. reflexivity.
+Qed.
+
+Lemma exec_capacity c w st vid want exact r :
+  cfg_wf c -> WRep c w st -> ufuse (wuw w) = None ->
+  sp_capacity c st (unext (wuw w)) vid want exact = Some r ->
+  match want with Some n => adm_reserve c w vid n | None => adm_shrink c w vid end ->
+  forall m : M Vec.st unit,
+  (forall n, want = Some n -> m = if exact then reserve_exact c n else reserve c n) ->
+  (want = None -> m = shrink_to_fit c \/ exists k, m = shrink_to c k) ->
+  res_matches c w ((on_vec vid m;; ret (0, @nil N)) w) r.
+Proof.
+  intros Hwf HW Hfuse Hr Hadm m Hres Hshr.
+  unfold sp_capacity in Hr. destruct (get_a vid st) as [av|] eqn:Hg; [|discriminate].
+  destruct (wrep_get c w st vid av HW Hg) as (vv & Hgv & HV).
+  pose proof (vi_rep _ _ _ HV) as HR. pose proof (rep_len _ _ _ HR) as Hlen. pose proof (rep_cap _ _ _ HR) as Hle.
+  destruct want as [n|].
+  - specialize (Hres n eq_refl). specialize (Hadm vv Hgv). rewrite <- Hlen in Hr.
+    destruct (N.ltb_spec usize_max (vlen vv + n)) as [Hov|Hnov].
+    + injection Hr as <-. destruct (reserve_overflow c vv (wuw w) n Hov) as [E1 E2].
+      apply (exec_panics_unchanged c w st vid av vv m POverflow); auto. subst m. destruct exact; assumption.
+    + destruct (acap c (a_bk av)) as [cap|] eqn:Ea.
+      * assert (Hcap : vcap vv = cap). { pose proof (vi_cap _ _ _ HV) as H. rewrite Ea in H. exact H. }
+        assert (Hfx : fixed_backend (vbk vv)). { rewrite (vi_bk _ _ _ HV). eapply acap_fixed; eauto. }
+        rewrite <- Hcap in Hr.
+        destruct (N.leb_spec (vlen vv + n) (vcap vv)) as [Hroom|Hno].
+        -- injection Hr as <-. destruct (reserve_noop c vv (wuw w) (a_xs av) n HR Hroom) as [E1 E2].
+           apply (exec_keeps c w st vid av vv m); auto.
+           exists vv, (wuw w). subst m. split; [destruct exact; assumption|].
+           split; [exact HR|]. split; [reflexivity|]. split; [apply same_user_refl|auto].
+        -- destruct exact; [discriminate|]. injection Hr as <-.
+           apply (exec_panics_unchanged c w st vid av vv m PCapacity); auto. subst m.
+           apply reserve_fixed; assumption.
+      * injection Hr as <-.
+        assert (Hres' : resizable_backend (vbk vv)). { rewrite (vi_bk _ _ _ HV). eapply acap_none_resizable; eauto. }
+        assert (Hnf : ~ fixed_backend (vbk vv)). { rewrite (vi_bk _ _ _ HV). eapply acap_none_not_fixed; eauto. }
+        destruct (N.le_gt_cases (vlen vv + n) (vcap vv)) as [Hroom|Hno].
+        -- destruct (reserve_noop c vv (wuw w) (a_xs av) n HR Hroom) as [E1 E2].
+           apply (exec_keeps c w st vid av vv m); auto.
+           exists vv, (wuw w). subst m. split; [destruct exact; assumption|].
+           split; [exact HR|]. split; [reflexivity|]. split; [apply same_user_refl|auto].
+        -- destruct Hadm as [Hr1|[Hf|[Ho|[Hg1 Hg2]]]]; try lia; try contradiction.
+           apply (exec_keeps c w st vid av vv m); auto. subst m. destruct exact.
+           ++ destruct (reserve_exact_grows c vv (wuw w) (a_xs av) n Hwf HR Hres' Hno Hnov Hg2) as (v' & u' & E & H1 & H2 & H3 & H4).
+              exists v', u'. split; [exact E|]. split; [exact H1|]. split; [exact H3|]. split; [exact H4|]. intros F; contradiction.
+           ++ destruct (reserve_grows c vv (wuw w) (a_xs av) n Hwf HR Hno Hg1) as (v' & u' & E & H1 & H2 & H3 & H4 & H5).
+              exists v', u'. split; [exact E|]. split; [exact H1|]. split; [exact H4|]. split; [exact H5|]. intros F; contradiction.
+  - destruct (resizable (a_bk av)) eqn:Hrz; [|discriminate]. injection Hr as <-.
+    destruct (resizable_spec _ Hrz) as [Hres' Hnone]. rewrite <- (vi_bk _ _ _ HV) in Hres'.
+    assert (Hnf : ~ fixed_backend (vbk vv)). { rewrite (vi_bk _ _ _ HV). eapply acap_none_not_fixed. apply (Hnone c). }
+    specialize (Hadm vv Hgv).
+    apply (exec_keeps c w st vid av vv m); auto.
+    destruct (Hshr eq_refl) as [-> | [k ->]].
+    + destruct (shrink_to_fit_spec c vv (wuw w) (a_xs av) Hwf HR Hres' Hadm) as (v' & u' & E & H1 & H2 & H3 & H4).
+      exists v', u'. split; [exact E|]. split; [exact H1|]. split; [exact H3|]. split; [exact H4|]. intros F; contradiction.
+    + destruct (shrink_to_spec c vv (wuw w) (a_xs av) k Hwf HR Hres' Hadm) as (v' & u' & E & H1 & H2 & H3 & H4 & _).
+      exists v', u'. split; [exact E|]. split; [exact H1|]. split; [exact H3|]. split; [exact H4|]. intros F; contradiction.
+Qed.
+
 Lemma exec_refines_step c w st o r :
   cfg_wf c -> WRep c w st -> ufuse (wuw w) = None ->
   spec_step c st (unext (wuw w)) o = Some r -> admissible c w o ->
@@ -924,6 +1038,26 @@ Proof.
     + unfold raise. cbn [res_matches panic_res s_out s_pk s_ret s_st s_evs s_nx].
       split; [reflexivity|split; [reflexivity|split; [reflexivity|]]]. rewrite N.sub_diag.
       apply step_ok_refl; assumption.
+  - (* OReserve *)
+    cbn [admissible] in Hadm. cbn [exec].
+    apply (exec_capacity c w st v (Some n) false r Hwf HW Hfuse Hr Hadm (reserve c n)).
+    + intros n0 H. injection H as <-. reflexivity.
+    + discriminate.
+  - (* OReserveExact *)
+    cbn [admissible] in Hadm. cbn [exec].
+    apply (exec_capacity c w st v (Some n) true r Hwf HW Hfuse Hr Hadm (reserve_exact c n)).
+    + intros n0 H. injection H as <-. reflexivity.
+    + discriminate.
+  - (* OShrinkToFit *)
+    cbn [admissible] in Hadm. cbn [exec].
+    apply (exec_capacity c w st v None false r Hwf HW Hfuse Hr Hadm (shrink_to_fit c)).
+    + discriminate.
+    + intros _. left. reflexivity.
+  - (* OShrinkTo *)
+    cbn [admissible] in Hadm. cbn [exec].
+    apply (exec_capacity c w st v None false r Hwf HW Hfuse Hr Hadm (shrink_to c n)).
+    + discriminate.
+    + intros _. right. eexists. reflexivity.
 Qed.
 
 (** ** One [run_step] (what the harness and the extracted model execute per script step) *)
@@ -941,9 +1075,12 @@ Proof.
   unfold sp_take, sp_take_elem. cbv zeta. intros H. crush H; cbn; try (split; lia);
   match goal with Hs : _ = inr ?s |- _ => crush Hs; cbn; split; lia end.
 Qed.
+Lemma sp_capacity_nx c st nx v want exact r : sp_capacity c st nx v want exact = Some r -> nx <= s_nx r /\ s_out r < 100.
+Proof. unfold sp_capacity. cbv zeta. intros H. crush H; cbn; split; lia. Qed.
 Lemma spec_nx_out c st nx o r : spec_step c st nx o = Some r -> nx <= s_nx r /\ s_out r < 100.
 Proof.
   intros H. destruct o; cbn [spec_step] in H; try discriminate;
+    try (apply sp_capacity_nx in H; exact H);
     try (apply sp_take_nx in H; exact H);
     try (destruct (fresh_src s); [apply sp_offer_nx in H; exact H|discriminate]);
     crush H; cbn; split; lia.
@@ -1083,6 +1220,14 @@ Definition admissibleb (c : cfg) (w : world) (o : op) : bool :=
   | OPop _ _ k | ORemove _ _ _ k | OSwapRemove _ _ _ k =>
       match k with KPush d | KIns d _ => adm_vecb c w d | _ => true end
   | ONew _ bk => bk_wfb bk
+  | OReserve v n | OReserveExact v n =>
+      match get_vec v w with
+      | Some vv => (vlen vv + n <=? vcap vv) || fixedb (vbk vv) || (usize_max <? vlen vv + n)
+                   || (grow_okb c vv (vlen vv + n) && (c_sz c * (vlen vv + n) <=? alloc_limit))
+      | None => true
+      end
+  | OShrinkToFit v | OShrinkTo v _ =>
+      match get_vec v w with Some vv => c_sz c * vcap vv <=? alloc_limit | None => true end
   | _ => true
   end.
 Fixpoint Admissibleb (c : cfg) (w : world) (ops : list op) : bool :=
@@ -1112,10 +1257,38 @@ Proof.
   - apply andb_prop in H. destruct H. split; apply N.leb_le; assumption.
   - apply N.leb_le. exact H.
 Qed.
+Lemma grow_okb_sound c v n : grow_okb c v n = true -> grow_ok c v n.
+Proof.
+  unfold grow_okb, grow_ok. destruct (vbk v); try discriminate; intros H; apply andb_prop in H; destruct H as [H1 H2];
+    split; apply N.leb_le; assumption.
+Qed.
+Lemma fixedb_sound b : fixedb b = true -> fixed_backend b.
+Proof. destruct b; cbn; intros H; try discriminate; exact I. Qed.
+Lemma adm_reserveb_sound c w v n :
+  match get_vec v w with
+  | Some vv => (vlen vv + n <=? vcap vv) || fixedb (vbk vv) || (usize_max <? vlen vv + n)
+               || (grow_okb c vv (vlen vv + n) && (c_sz c * (vlen vv + n) <=? alloc_limit))
+  | None => true
+  end = true -> adm_reserve c w v n.
+Proof.
+  intros H vv Hg. rewrite Hg in H.
+  apply orb_prop in H. destruct H as [H|H].
+  - apply orb_prop in H. destruct H as [H|H].
+    + apply orb_prop in H. destruct H as [H|H].
+      * left. apply N.leb_le. exact H.
+      * right. left. apply fixedb_sound. exact H.
+    + right. right. left. apply N.ltb_lt. exact H.
+  - right. right. right. apply andb_prop in H. destruct H as [H1 H2].
+    split; [apply grow_okb_sound; exact H1|apply N.leb_le; exact H2].
+Qed.
+Lemma adm_shrinkb_sound c w v :
+  match get_vec v w with Some vv => c_sz c * vcap vv <=? alloc_limit | None => true end = true -> adm_shrink c w v.
+Proof. intros H vv Hg. rewrite Hg in H. apply N.leb_le. exact H. Qed.
 Lemma admissibleb_sound c w o : admissibleb c w o = true -> admissible c w o.
 Proof.
   destruct o; cbn [admissibleb admissible]; intros H; try exact I;
     try (apply adm_vecb_sound; exact H); try (apply bk_wfb_sound; exact H);
+    try (apply adm_reserveb_sound; exact H); try (apply adm_shrinkb_sound; exact H);
     destruct k; try exact I; apply adm_vecb_sound; exact H.
 Qed.
 Lemma Admissibleb_sound c ops : forall w, Admissibleb c w ops = true -> Admissible c w ops.
@@ -1135,6 +1308,8 @@ Definition ex_ops : list op :=
     OPop Typed 0 KDown; OPop Erased 0 KDrop; OPop Erased 0 KDrop;   (* last one: None *)
     OPush Erased 2 SRawS; OPush Erased 2 SWrap; OPush Erased 2 SWrap; (* grows past the prebuilt capacity *)
     ORemove Erased 2 0 KForget; OGet Erased 1 1; OGet Erased 1 2; OAt Erased 1 0; OAt Erased 1 5;
+    OReserve 1 5;                                              (* beyond the fixed capacity: panics *)
+    OReserve 0 7; OReserveExact 0 20; OShrinkTo 0 3; OShrinkToFit 0; OReserve 1 18446744073709551615;
     OClear Erased 1; ODropVec 2; ODropVec 0 ].
 
 Example ex_spec_defined : exists rs, spec_run ex_cfg [] 1 ex_ops = Some rs /\ length rs = length ex_ops.
@@ -1148,7 +1323,7 @@ Example ex_outcomes :
   map (fun r => (s_out r, s_pk r, s_ret r)) (match spec_run ex_cfg [] 1 ex_ops with Some rs => rs | None => [] end)
   = [(0,0,[]); (0,0,[]); (0,0,[]); (0,0,[]); (0,0,[]); (0,0,[]); (0,0,[]); (2,1,[]); (0,0,[]); (0,0,[]);
      (2,3,[]); (0,0,[3]); (1,0,[]); (1,0,[]); (0,0,[]); (0,0,[]); (0,0,[]); (0,0,[]); (0,0,[1]); (1,0,[]);
-     (0,0,[4]); (2,1,[]); (0,0,[]); (0,0,[]); (0,0,[])].
+     (0,0,[4]); (2,1,[]); (2,3,[]); (0,0,[]); (0,0,[]); (0,0,[]); (0,0,[]); (2,5,[]); (0,0,[]); (0,0,[]); (0,0,[])].
 Proof. vm_compute. reflexivity. Qed.
 
 (** ** Corollaries in the vocabulary of the properties *)
@@ -1191,4 +1366,14 @@ Corollary history_events c ops w st rs :
 Proof.
   intros Hwf HW Hs Ha. apply (Forall2_impl (obs_match c)); [|apply (history_refines c ops w st rs Hwf HW Hs Ha)].
   intros sr r Hm. apply (om_evs _ _ _ Hm).
+Qed.
+(** C10: in every state of every history (capacity calls included) len <= capacity for every vector *)
+Corollary history_len_le_cap c ops w st rs :
+  cfg_wf c -> WRep c w st -> spec_run c st (unext (wuw w)) ops = Some rs -> Admissible c w ops ->
+  Forall (fun sr => forall n v, get_vec n (sr_world sr) = Some v -> vlen v <= vcap v) (run_hist c ops w).
+Proof.
+  intros Hwf HW Hs Ha. apply (Forall2_Forall_l (obs_match c) _ _ rs); [|apply (history_refines c ops w st rs Hwf HW Hs Ha)].
+  intros sr r Hm n v Hg. pose proof (om_rep _ _ _ Hm n) as H. rewrite get_vec_slot in Hg. rewrite Hg in H.
+  destruct (slot n (s_st r)) as [a|]; cbn in H; [|contradiction].
+  apply (rep_cap _ _ _ (vi_rep _ _ _ H)).
 Qed.
